@@ -432,6 +432,43 @@ def run_e2c(prog, rep):
                 for a in c.chain:
                     if a != "with_context":
                         bad.append("adapter %s may rewrite Cancelled" % a)
+            # stops: between this call and the `?` that propagates its result no other may-cancel call runs
+            if not bad:
+                try_blocks = set()
+                l = t["dest"]["l"]
+                seenl = set()
+                work = [l]
+                while work:
+                    x = work.pop()
+                    if x in seenl:
+                        continue
+                    seenl.add(x)
+                    for u in uses.of(x):
+                        if u[0] == "arg":
+                            if is_callee(u[3], r"Try::branch$|Try>::branch$"):
+                                try_blocks.add(u[1])
+                            elif is_callee(u[3], *ADAPTERS) and "p" not in u[3]["dest"]:
+                                work.append(u[3]["dest"]["l"])
+                        elif u[0] in ("rv", "ref") and "p" not in u[3]:
+                            work.append(u[3]["l"])
+                if try_blocks and t["t"] is not None:
+                    between = body.reach_from([t["t"]], avoid=try_blocks)
+                    for x in sorted(between):
+                        tt = body.term(x)
+                        if tt["k"] != "call" or x == b:
+                            continue
+                        fr2 = callee_fn(tt)
+                        if fr2 is None:
+                            continue
+                        tg2 = fr2.get("rdef") or fr2["def"]
+                        cands = [tg2] if tg2 in prog.fns else []
+                        if fr2.get("trait") and (fr2.get("rkind") == "virtual" or not fr2.get("rdef") or fr2.get("rdef") == fr2["def"]):
+                            cands += cg.trait_impls.get((fr2["trait"], fr2["def"].rsplit("::", 1)[-1]), [])
+                        if any(c in canc for c in cands) or is_callee(tt, POLL):
+                            # only if that other call can actually run before our `?`: it must be able to reach one of our try blocks
+                            if body.reach_from([x]) & try_blocks:
+                                bad.append("another may-cancel call (%s) runs before this result is propagated: execution continues after a cancellation" % fr2["def"].rsplit("::", 1)[-1])
+                                break
             if bad:
                 rep.violation("E2.c", key, sp_str(t["sp"]), "a result that may be Cancelled is not passed through unchanged: %s" % "; ".join(sorted(set(bad))))
             else:
